@@ -15,9 +15,6 @@ def run(ctx):
         I("vector", 0, "TR", alloc="ledgerrealloc", L=3, opts=["--few-ranges", "--fault", "1"]),
         I("small", 2, "NTR", alloc="ledgerstd", L=3, opts=["--few-ranges", "--fault", "1"]),
         I("vector", 0, "TC4", alloc="ledgerbasic", L=3, opts=["--few-ranges", "--fault", "1"]),
-        # non-relocatable elements with an allocator that OFFERS reallocate (raw byte move): it must never be called
-        I("vector", 0, "NTR", alloc="ledgerrealloc", L=3, opts=["--few-ranges"]),
-        I("small", 2, "PTN", alloc="ledgerrealloc", L=3, opts=["--few-ranges"]),
     ]
     cov = e1.explore(ctx, matrix, ["C06"])
     # buffers that change owner through swap2: pairs of heap-capable operands over the exact-count ledger allocator
